@@ -17,7 +17,7 @@ func closedOK(err error) bool {
 
 func c10Run(w *W) {
 	kind := allKinds[w.Choose(simrt.SShape, len(allKinds))]
-	tran := w.simFallback([]string{"msg", "inproc", "sim", "simipc", "tcp", "ipc", "tls+tcp"}[w.Choose(simrt.SShape, 7)])
+	tran := w.simFallback([]string{"msg", "inproc", "sim", "simipc", "tcp", "ipc", "tls+tcp", "ws", "wss"}[w.Choose(simrt.SShape, 9)])
 	npeers := w.Choose(simrt.SShape, 3)
 	what := []string{"socket", "socket", "context", "dialer", "listener", "pipe"}[w.Choose(simrt.SShape, 6)]
 	stream := tran != "msg" && tran != "inproc"
@@ -197,6 +197,12 @@ func c10Run(w *W) {
 				}
 				lateConn, lateAccepted = c, true
 				lateRelease.Wait(time.Hour)
+				if tran == "ws" || tran == "wss" {
+					// (this peer does not speak HTTP: it hangs up, which ends the
+					// upgrade request the dialer is waiting on)
+					c.Close()
+					return
+				}
 				c.Write(wcHeader(protoOf(peerKind[kind])))
 				wcReadHeader(c)
 			})
